@@ -52,7 +52,7 @@ manifest = {
  ],
  "checks": [],
  "not_applicable": [],
- "notes": "All checks go through ./check, which rebuilds the engine (and with it gc-arena, a path dependency on /repo) before running. Fix commits in /repo: c7759d9 (C10), 91a2c58 (C13), af55683 (C19), 3a228d4 (C09), 12051e7 (C12), 5a94f0f (C19), 94c854b + 393f13d (C13), de53846 (C15), b5e747b (C12), 625df6e (C19). One known finding is listed and excluded by signature: C12 non-wf-root-implies-static (./check C12 prints its KNOWN-FINDING line and exits 0). See KNOWN_FINDINGS.txt and DESIGN.md section 5.",
+ "notes": "All checks go through ./check, which rebuilds the engine (and with it gc-arena, a path dependency on /repo) before running. Fix commits in /repo: c7759d9 (C10), 91a2c58 (C13), af55683 (C19), 3a228d4 (C09), 12051e7 (C12), 5a94f0f (C19), 94c854b + 393f13d (C13), de53846 (C15), b5e747b (C12), 625df6e (C19), 0348bf7 + bbde156 (C13). Three known findings are listed and excluded by signature: C12 and C13 non-wf-root-implies-static (one root cause), C15 crate-alias-hijacks-derive-paths (./check C12 / C13 / C15 print their KNOWN-FINDING lines and exit 0). See KNOWN_FINDINGS.txt and DESIGN.md section 5.",
 }
 extra = os.path.join(ROOT, "tools", "manifest_extra.json")
 extra_checks = json.load(open(extra)) if os.path.exists(extra) else {}
